@@ -308,9 +308,10 @@ def run(check, an: Analysis):
                                                                      '_run_events')
         detail = 'Loop.time written by %s' % short(fn.qn)
         if ok and fn.name == '_run_events':
-            value = stmt.value if isinstance(stmt, ast.Assign) else None
-            ok = isinstance(value, ast.Name) and _is_popped_key(fn, value.id)
-            detail += ': the value is the key component of `self._activations.pop()`'
+            values = _stored_values(an, fn, target)
+            ok = bool(values) and values <= {'self._activations.pop()[0]'}
+            detail += ': the value is the key component of `self._activations.pop()`: ' \
+                      '%s' % sorted(values)
         elif ok:
             value = stmt.value if isinstance(stmt, ast.Assign) else None
             ok = isinstance(value, ast.Name) and rules._is_param(fn, value.id)
@@ -466,15 +467,17 @@ def check_drain(check, an: Analysis, run_events: Callee, rule: str):
                    path=rules.path_lines(*bad) if bad else None, analysed=n_seg)
 
 
-def _is_popped_key(fn, name: str) -> bool:
-    for node in ast.walk(fn.node):
-        if isinstance(node, ast.Assign) and isinstance(node.targets[0], ast.Tuple) and \
-                isinstance(node.value, ast.Call) and \
-                ast.unparse(node.value.func) in ('activations.pop', 'self._activations.pop'):
-            first = node.targets[0].elts[0]
-            if isinstance(first, ast.Name) and first.id == name:
-                return True
-    return False
+def _stored_values(an: Analysis, fn, target) -> set:
+    """what the store to ``target`` receives on the paths of ``fn``, in terms of the
+    expressions the locals stand for"""
+    values = set()
+    for path in an.paths(an.callee(fn.cls.qn, fn.name)):
+        for index, event in enumerate(path.events):
+            if event.kind == 'store' and event.node is target:
+                value = event.data.get('value')
+                values.add('?' if value is None else
+                           rules.value_text(path, index, value))
+    return values
 
 
 def _check_waitqueues(check, an: Analysis, rule: str = 'L2'):
